@@ -113,6 +113,8 @@ def c01(run):
         rt_family(run, "prio_3x1", "prio", 3, 1)
         rt_family(run, "prio_2x3", "prio", 2, 3, invs=("DispatchIff", "TreeSorted"))
     rt_random(run, "rand_prio", "prio", 300 if quick else 20000)
+    # histories with rejected registrations: only SUCCESSFULLY registered routes may ever be dispatched to
+    rt_random(run, "rand_reg", "reg", 300 if quick else 20000)
     return run.finish(rule=RT_RULE, extra_assumptions=RT_ASSUME)
 
 
